@@ -155,6 +155,11 @@ theorem triple_sq (a1 a2 a3 b1 b2 b3 n1 n2 n3 : K)
     + (-(b2 * (a1 * n1 + a2 * n2 + a3 * n3) - a2 * (b1 * n1 + b2 * n2 + b3 * n3))) * e2
     + (-(b3 * (a1 * n1 + a2 * n2 + a3 * n3) - a3 * (b1 * n1 + b2 * n2 + b3 * n3))) * e3
 
+/-- what `place` does to one homogeneous control point `[X, Y, W]` of a planar rational object
+    (`C13_model_nets`, part 3): pre-rotation by `α`, embedding in 3D, `R_z(θ) R_y(φ)`, translation. -/
+def placePt (ca sa ct st cp sp : K) (center : List K) (p : Pt K) : Pt K :=
+  translatePt true 3 center (rotZPt ct st (rotYPt cp sp (setDimPt 2 3 (rotZPt ca sa p))))
+
 /-! ## linear combinations of control points, `solve3` -/
 
 /-- `β0·p0 + β1·p1 + β2·p2` component-wise. -/
